@@ -240,8 +240,8 @@ func (s *statement) materialise(rng *rand.Rand, rep, ptr int) {
 			s.Cs[i] = mk()
 		}
 		// polynomial slices: fresh copies or shared backing arrays
-		if usePtr {
-			s.fs[i] = pd.lv
+		if usePtr || i >= 2048 {
+			s.fs[i] = pd.lv // (beyond 2048 openings always shared: 8 kB per private copy)
 		} else {
 			s.fs[i] = append([]fr.Element(nil), pd.lv...)
 		}
